@@ -624,6 +624,7 @@ type c13Case struct {
 	PivExpect string   `json:",omitempty"` // read/attest: cert0 | cert1 | error | either
 	CutOp     string   `json:",omitempty"` // transport failure: operation whose response is cut
 	CutClass  string   `json:",omitempty"`
+	HoldOp    string   `json:",omitempty"` // the caller holds this operation's result while CutOp runs uncut
 }
 
 func c13RunOps(c *ev.Ctx, ops map[string]c13Op, names []string) {
@@ -799,7 +800,7 @@ func errClassY(err error) string {
 }
 
 func checkC13(c *ev.Ctx) {
-	c.Rule("yubiagent.NewClient through the dial seam; the peer runs the real ServeAgent synchronously per request over (i) a recording YubiAgent with scripted results and (ii) the real server with a fake yubico-piv-tool. Every operation alone: List (0..3 keys, comments '', ascii, UTF-8, 300 bytes), SignWithFlags (3 key types x data {0,1,64,65536} x flags {0,2,4,6}), Add (3 key types x cert x lifetime {0,1,2^32-1} x confirm), Remove, RemoveAll, Lock/Unlock (5 passphrases), Signers, AddHardCert (client and legacy encoding, 4 comments), Wait (6 codes), slot operations (slot names, 2 certificate sizes), raw Forward (3 bodies x 4 replies up to 70 KB), Extension, smart-card requests, scripted failures with 5 error texts; transport failures: the response of each of 16 operations cut after {0, 2, 4 bytes, half the body, all but the last byte} and the stream ended (the call must return an error); every ordered pair over a 30-operation generating set; PIV tool outputs (well-formed status, 'Slot' alone, 'Slot 9' (6 chars), 'Slot 9a' (7), 'Slot9a:', CRLF, empty, 1 MiB, exit status 1, PEM/garbage for read/attest) in local and remote mode. non-trivial = operation sequence whose arguments and results were compared; distinct by sequence")
+	c.Rule("yubiagent.NewClient through the dial seam; the peer runs the real ServeAgent synchronously per request over (i) a recording YubiAgent with scripted results and (ii) the real server with a fake yubico-piv-tool. Every operation alone: List (0..3 keys, comments '', ascii, UTF-8, 300 bytes), SignWithFlags (3 key types x data {0,1,64,65536} x flags {0,2,4,6}), Add (3 key types x cert x lifetime {0,1,2^32-1} x confirm), Remove, RemoveAll, Lock/Unlock (5 passphrases), Signers, AddHardCert (client and legacy encoding, 4 comments), Wait (6 codes), slot operations (slot names, 2 certificate sizes), raw Forward (3 bodies x 4 replies up to 70 KB), Extension, smart-card requests, scripted failures with 5 error texts; transport failures: the response of each of 16 operations cut after {0, 2, 4 bytes, half the body, all but the last byte} and the stream ended (the call must return an error); held results (6 value-returning operations x 16 following operations: the kept bytes must not change); every ordered pair over a 30-operation generating set; PIV tool outputs (well-formed status, 'Slot' alone, 'Slot 9' (6 chars), 'Slot 9a' (7), 'Slot9a:', CRLF, empty, 1 MiB, exit status 1, PEM/garbage for read/attest) in local and remote mode. non-trivial = operation sequence whose arguments and results were compared; distinct by sequence")
 	c.Assume("error texts exactly 'SUCCESS' / '' and extension payloads that are empty or start with byte 5/28 are in-band protocol artefacts, excluded from the alphabet", "private keys are compared through their public keys")
 	ops := map[string]c13Op{}
 	list := c13StubOps()
@@ -813,7 +814,9 @@ func checkC13(c *ev.Ctx) {
 		json.Unmarshal(c.ReplayCase, &k)
 		if k.CutOp != "" {
 			for _, cc := range c13CutCalls() {
-				if cc.Name == k.CutOp {
+				if cc.Name == k.CutOp && k.HoldOp != "" {
+					c13Hold(c, k.HoldOp, cc)
+				} else if cc.Name == k.CutOp {
 					c13Cut(c, cc, k.CutClass)
 				}
 			}
@@ -838,6 +841,12 @@ func checkC13(c *ev.Ctx) {
 		}
 	}
 	c.Sample(c13Case{CutOp: "Forward", CutClass: "half-body"})
+	// held results: every value-returning operation followed by every operation, the caller keeping the first result
+	for _, first := range []string{"List", "Sign", "Extension", "Forward", "ReadSlot", "AttestSlot"} {
+		for _, cc := range c13CutCalls() {
+			c13Hold(c, first, cc)
+		}
+	}
 	gen := []string{"list-2", "list-error", "sign-ed25519-data64-flags0", "sign-rsa-data65536-flags2", "sign-error", "add-ed25519-certfalse-life1-confirmfalse", "add-rsa-certtrue-life4294967295-confirmtrue",
 		"error-Add", "remove-ecdsa", "error-Remove", "remove-all", "Lock-pass1", "Unlock-pass300", "error-Unlock", "signers", "hardcert-comment13", "hardcert-legacy-encoding", "hardcert-keytype-rsa", "hardcert-keytype-ecdsa", "hardcert-error-x",
 		"hardcert-error-SUCCESSO", "wait-40", fmt.Sprintf("wait-error-%.8s", "échec ü"), "listslots-3", "listslots-error-x", "ReadSlot-cert0-slot\"9a\"", "AttestSlot-cert1-slot\"\"", "readslot-error-x",
